@@ -122,7 +122,7 @@ func genIso(t *rapid.T) IsoCase {
 
 func inputBindings() match.Bindings {
 	return match.Bindings{"x": 1.0, "a": map[string]interface{}{"b": 1.0}, "l": []interface{}{1.0, 2.0},
-		"cfg!": map[string]interface{}{"limits": map[string]interface{}{"max": 1.0}, "hosts": []interface{}{"h"}},
+		"cfg!":  map[string]interface{}{"limits": map[string]interface{}{"max": 1.0}, "hosts": []interface{}{"h"}},
 		"d":     map[string]interface{}{"e": map[string]interface{}{"f": []interface{}{}}},
 		"items": []interface{}{map[string]interface{}{"qty": 1.0}, map[string]interface{}{"qty": 2.0, "tags": []interface{}{"t"}}},
 		"grid":  []interface{}{[]interface{}{1.0, 2.0}, []interface{}{3.0}}}
@@ -141,7 +141,7 @@ func inputPropsMode(mode int) core.StepProps {
 func inputProps() core.StepProps {
 	// one map reachable by several paths
 	shared := map[string]interface{}{"k": 1.0, "arr": []interface{}{1.0}}
-	return core.StepProps{"s1": shared, "s2": shared, "lst": []interface{}{shared, shared},"n": 5.0, "q": "s", "a": map[string]interface{}{"b": 1.0}, "l": []interface{}{1.0, 2.0},
+	return core.StepProps{"s1": shared, "s2": shared, "lst": []interface{}{shared, shared}, "n": 5.0, "q": "s", "a": map[string]interface{}{"b": 1.0}, "l": []interface{}{1.0, 2.0},
 		"d":     map[string]interface{}{"e": map[string]interface{}{"f": []interface{}{}}},
 		"items": []interface{}{map[string]interface{}{"qty": 1.0}},
 		"grid":  []interface{}{[]interface{}{1.0, 2.0}, []interface{}{3.0}}}
